@@ -285,9 +285,15 @@ class Interp(object):
             return not self.truth(self.eval_cond(e.operand, env), e.operand)
         return self.eval(e, env)
 
+    _OPSYM = {ast.Add: '+', ast.Sub: '-', ast.Mult: '*', ast.FloorDiv: '//', ast.Mod: '%', ast.Pow: '**', ast.LShift: '<<',
+              ast.RShift: '>>', ast.BitOr: '|', ast.BitAnd: '&', ast.BitXor: '^', ast.Div: '/'}
+
     def binop(self, op, a, b, node):
         if isinstance(a, (Sym, TriVal)) or isinstance(b, (Sym, TriVal)) or a is UNKNOWN or b is UNKNOWN:
-            return Sym(src(node))
+            if a is UNKNOWN or b is UNKNOWN or type(op) not in self._OPSYM:
+                return Sym(src(node))
+            # built from the operand *values* so that constants folded on the way stay visible
+            return Sym('(%s %s %s)' % (text_of(a), self._OPSYM[type(op)], text_of(b)))
         from .fold import _BIN
         try:
             return _BIN[type(op)](a, b)
@@ -402,6 +408,9 @@ class Interp(object):
             self.events.append(('endloop',))
         return Sym(src(e))
 
+    _CMPSYM = {ast.Eq: '==', ast.NotEq: '!=', ast.Lt: '<', ast.LtE: '<=', ast.Gt: '>', ast.GtE: '>=', ast.Is: 'is', ast.IsNot: 'is not',
+               ast.In: 'in', ast.NotIn: 'not in'}
+
     def compare(self, e, env):
         left = self.eval(e.left, env)
         res = True
@@ -409,6 +418,8 @@ class Interp(object):
             right = self.eval(r, env)
             v = self.cmp1(op, left, right, e)
             if v is UNKNOWN:
+                if len(e.ops) == 1 and not isinstance(left, (tuple, list, dict)) and not isinstance(right, (tuple, list, dict)):
+                    return Sym('(%s %s %s)' % (text_of(left), self._CMPSYM[type(op)], text_of(right)))
                 return Sym(src(e))
             if not v:
                 return False
